@@ -7,6 +7,7 @@ import corrupt
 import e2e
 import expstage
 import maclib
+import mspan
 import semgen
 import semstage
 import textgen
@@ -184,6 +185,12 @@ def run(res):
                          lambda c, a: any(ord(ch) > 127 for ch in unhx(c.split("\t")[1]).decode("utf-8")), oracle)
     if st["disagreements"] == 0 and st["oracle_failures"] == 0:
         res.discharged.append(name1)
+    # (1b) the composition inside Display: reports with several entries in any order, formatted once
+    name1b = "correspondence:span of every entry of a multi-entry report (Display for ErrorReport)"
+    res.obligations.append(name1b)
+    stb = mspan.run_stream(res, mspan.oracle_c04, "multi-entry-spans")
+    if stb["disagreements"] == 0 and stb["oracle_failures"] == 0:
+        res.discharged.append(name1b)
     # (2) expansion-time half, in-process: recorded ranges vs the generator's extents, all layouts
     recs = expstage.run_stage(res, res.tier, res.seed)
     name2 = "correspondence:expander(token-exact, incl. line/column of every node)"
@@ -228,6 +235,7 @@ def run(res):
     out = e2e.compile_many(progs, run=True, tag="c04")
     marks = 0
     lay_fail = 0
+    rendered_spans = 0
     import os
     for k, o in enumerate(out):
         if not o["compiled"]:
@@ -235,6 +243,26 @@ def run(res):
         src = progs[k]
         results = e2e.parse_case_lines(o.get("stdout", ""))
         for cid, r in results.items():
+            # the spans Display handed to the renderer (span log), one per entry, must be the bytes of the text marked
+            sp = r.get("spans")
+            if r["verdict"] == "fail" and sp is not None and sp and len(sp) == len(r["pushes"]):
+                for p, (bs, be) in zip(r["pushes"], sp):
+                    ls, cs, le, ce = p["loc"]
+                    if ls == 0:
+                        continue
+                    s, e = offset_of(src, ls, cs), offset_of(src, le, ce)
+                    ws, we = len(src[:s].encode("utf-8")), len(src[:e].encode("utf-8"))
+                    rendered_spans += 1
+                    if e > s and (bs, be) != (ws, we):
+                        lay_fail += 1
+                        if lay_fail <= 3:
+                            res.violation("failing-input", "the entry for `%s` (recorded at line %d columns %d..%d = bytes %d..%d: `%s`) is rendered "
+                                          "with the annotation on bytes %d..%d: `%s`" % (p["node"], ls, cs, ce, ws, we, src[s:e], bs, be,
+                                                                                         src.encode("utf-8")[bs:be].decode("utf-8", "replace")),
+                                          {"case": cid, "entries": r["pushes"], "spans": sp, "source_lines": src.split("\n")[ls - 2:le + 1]})
+            elif r["verdict"] == "fail" and sp is not None and len(sp) != len(r["pushes"]):
+                lay_fail += 1
+                res.violation("failing-input", "%d entries but %d annotations rendered" % (len(r["pushes"]), len(sp)), {"case": cid})
             for p in r["pushes"]:
                 ls, cs, le, ce = p["loc"]
                 if ls == 0:
@@ -251,7 +279,7 @@ def run(res):
                                       "beginning of that sub-pattern's own text" % (p["node"], marked, ls, cs, ce),
                                       {"case": cid, "source_lines": src.split("\n")[ls - 2:le + 1], "entry": p})
     e2e.cleanup("c04")
-    res.streams["layouts_under_rustc"] = {"assertions": len(chunk), "entries_checked": marks, "failures": lay_fail,
+    res.streams["layouts_under_rustc"] = {"assertions": len(chunk), "entries_checked": marks, "rendered_spans_checked": rendered_spans, "failures": lay_fail,
                                           "styles": {s: sum(1 for x in chunk if x[2] == s) for s in styles}}
     res.streams["in_process_locations"] = {"nodes_checked": nodes_checked, "invocations_with_problems": failing}
     name3 = "oracle:marked text under rustc is the node's own text"
